@@ -196,6 +196,7 @@ def gen_spec(rng, opts=None, depth=None, budget=None, counter=None, force=None):
         s["via"] = rng.pick(["ing", "conv"])
     if p in HAS_Q:
         s["q"] = _gen_q(rng, _field_for(rng, p, params, opts), opts, counter)
+
     if p in LEAVES:
         return s
 
@@ -334,6 +335,10 @@ def _mk_q(q, node, qreg=None):
 
     kind = q["kind"]
     f = q["f"]
+    if kind == "unweighted":
+        from histogrammar.defs import unweighted
+
+        return unweighted
     if kind == "lambda":
         return gate.make_lambda(node, f)
     if kind == "named":
@@ -377,6 +382,8 @@ def quantity_name(q):
         return q.get("expr", q["f"])
     if k == "column":
         return q["f"]
+    if k == "unweighted":
+        return "unweighted"
     return None
 
 
@@ -704,3 +711,14 @@ def dec_record(rec):
         else:
             out[k] = dec_float(v)
     return out
+
+
+def use_unweighted(spec, rng, p=0.3):
+    """Give some Selects the library's own constant selection (``histogrammar.defs.unweighted``, the default of
+    HistogramCut): every datum passes with weight 1.  Only where the cut below evaluates a quantity itself - a constant
+    says nothing about the number of rows of a batch."""
+    for _, nd in walk(spec):
+        if nd["p"] == "Select" and nd.get("cut") is not None and rng.chance(p):
+            if any(c["p"] in HAS_Q and (c.get("q") or {}).get("kind") != "unweighted" for _, c in walk(nd["cut"])):
+                nd["q"] = {"f": "one", "kind": "unweighted"}
+    return spec
